@@ -66,13 +66,14 @@ func c14LinesDecl(ignore bool) *decl.Decl {
 var c14Bytes = []string{"[", "]", "=", "\"", ":", ";", "#", " ", "\n", "\r", "a", "\\", "\xff"}
 
 var c14Long = map[string]string{
-	"<4095>":  strings.Repeat("x", 4095),
-	"<4096>":  strings.Repeat("x", 4096),
-	"<4097>":  strings.Repeat("x", 4097),
-	"<10000>": strings.Repeat("y", 10000),
-	"<4092>":  strings.Repeat("z", 4092), // "S = " + 4092 bytes = a line of exactly one read buffer
-	"<8188>":  strings.Repeat("w", 8188), // exactly two read buffers
-	"<70000>": strings.Repeat("v", 70000),
+	"<4095>":   strings.Repeat("x", 4095),
+	"<4096>":   strings.Repeat("x", 4096),
+	"<4097>":   strings.Repeat("x", 4097),
+	"<10000>":  strings.Repeat("y", 10000),
+	"<4092>":   strings.Repeat("z", 4092), // "S = " + 4092 bytes = a line of exactly one read buffer
+	"<8188>":   strings.Repeat("w", 8188), // exactly two read buffers
+	"<70000>":  strings.Repeat("v", 70000),
+	"<sp4100>": strings.Repeat(" ", 4100), // blanks that push a line past the read buffer
 }
 
 // line alphabet: valid entries, headers, noise, faults
@@ -80,6 +81,7 @@ var c14Lines = []string{
 	"S = a", "I = 5", "L = x", "M = k:1", "B = true", `S = "q z"`, "G = g", "C = c",
 	"[Application Options]", "[Grp]", "[cmd]", "[UpCmd]", "U = u", "[db.migrate]", "D = d", "Ch = red", "Ch = blue", "# <70000>", "Fn = x", "B = maybe",
 	"", "   ", "; c", "# c = 1", "; <4095>", "# <4096>", "S = <4097>", "; <10000>", "S = <4092>", "S = <8188>",
+	"  ; <4097>", "<sp4100>", "[Grp]<sp4100>", // noise and a header that are padded *and* longer than the read buffer
 	"nokey", `S = "abc`, "[open", "[]", "Zzz = 1", "I = x", "M = k:", "[Nope]", "  L  =  y  ",
 }
 
@@ -299,7 +301,7 @@ func init() {
 		ShardDepth: 5,
 		Body:       body,
 		Rule: "(i) every byte string of length <= 6 (thorough: <= 7 without IgnoreUnknown) over {[ ] = \" : ; # space LF CR a \\ 0xFF} read into a declaration whose option, ini-name and group are reachable over that alphabet (map option a, group a, ini-name aa); " +
-			"(ii) every file of <= 3 (quick) / <= 4 (thorough) lines over 39 lines, and of 4 / 5 lines over the 30 of them that are short: 8 valid entries (scalar, int, slice, map, bool, quoted, group and command options), a value given to a func() option (may be rejected with its line, must not panic), 3 headers, 8 noise lines (empty, blanks, ; and # comments, 4095/4096/10000-byte comments, a 4097-byte value) and 2 entries whose line is exactly one / two read buffers long (4096 / 8192 bytes), " +
+			"(ii) every file of <= 3 (quick) / <= 4 (thorough) lines over 42 lines, and of 4 / 5 lines over the 30 of them that are short: 8 valid entries (scalar, int, slice, map, bool, quoted, group and command options), a value given to a func() option (may be rejected with its line, must not panic), 3 headers, 11 noise lines (empty, blanks, ; and # comments, 4095/4096/10000-byte comments, a 4097-byte value, an indented 4099-byte comment, a line of 4100 blanks, a header followed by 4100 blanks) and 2 entries whose line is exactly one / two read buffers long (4096 / 8192 bytes), " +
 			"10 faults (a bool given a word that is no boolean, no '=', bad quoting, open header, empty header, unknown option, unconvertible int, empty map value, unknown section, padded entry) x LF/CRLF x final newline present/absent (files of one or two lines also read in as-defaults mode, and also with an IniParser that has read and rejected another file - one naming an unknown section - before, the parser's IgnoreUnknown being set only after that); both with and without IgnoreUnknown; " +
 			"oracle: returns normally; reference reader: no fault => no error and the values the entries denote (noise and line ends change nothing); faults => the error is one of them, IniError carrying exactly its 1-based line or ErrUnknownGroup; the first syntax fault always wins; " +
 			"distinct = distinct (error class, fault list, assigned options)",
